@@ -1056,49 +1056,73 @@ func ruleResumeDb(w *core.World, r *core.Report) {
 	// (b) StartPoint stores it into startDbId and returns it as DbId
 	if f := fn(w, r, "(*syncer.RedisOutput).StartPoint"); f != nil {
 		stored := false
-		for _, in := range core.Instrs(f) {
-			st, ok := in.(*ssa.Store)
-			if !ok {
+		for _, g := range reachableFuncs(f) {
+			if g != f && !(core.Transparent != nil && core.Transparent(g)) {
 				continue
 			}
-			if fa, ok := st.Addr.(*ssa.FieldAddr); ok && core.FieldName(fa) == "startDbId" {
-				if core.DependsOn(st.Val, isResultOf("(*syncer.RedisOutput).checkpoint", 1)) {
-					stored = true
+			for _, in := range core.OwnInstrs(g) {
+				st, ok := in.(*ssa.Store)
+				if !ok {
+					continue
+				}
+				if fa, ok := st.Addr.(*ssa.FieldAddr); ok && core.FieldName(fa) == "startDbId" {
+					if core.DependsOn(st.Val, isResultOf("(*syncer.RedisOutput).checkpoint", 1)) {
+						stored = true
+					}
 				}
 			}
 		}
 		r.Check(stored, "RedisOutput.StartPoint/startDbId", f.Pos(), "the checkpoint's database is not stored as the database to re-select on resume")
 		// ... on every path that returns a start point taken from the checkpoint (the output object is
 		// reused across in-process restarts, so a skipped store leaves the previous run's database)
-		isStore := func(in ssa.Instruction) bool {
-			st, ok := in.(*ssa.Store)
-			if !ok {
-				return false
-			}
-			fa, ok := st.Addr.(*ssa.FieldAddr)
-			return ok && core.FieldName(fa) == "startDbId" && core.DependsOn(st.Val, isResultOf("(*syncer.RedisOutput).checkpoint", 1))
-		}
+		// decided on paths, so that the two modes of StartPoint may live in methods of their own: a path that
+		// found a checkpoint (its first result tested non-nil) and returns without an error has stored the
+		// checkpoint's database
 		n := 0
-		for _, in := range core.Instrs(f) {
-			ret, ok := in.(*ssa.Return)
-			if !ok || len(ret.Results) == 0 {
-				continue
+		bad := ""
+		var badPos token.Pos = f.Pos()
+		isCp := func(s core.Site) bool { return s.Name == "(*syncer.RedisOutput).checkpoint" }
+		okEnum := core.EnumPathsN(f.Blocks[0], 0, 200000, 1, func(p *core.Path) {
+			ret, isRet := p.End.(*ssa.Return)
+			if !isRet || ret.Parent() != f || bad != "" || len(ret.Results) < 2 || !pathNil(p, ret.Results[len(ret.Results)-1]) {
+				return
 			}
-			uses := false
-			for _, rv := range core.RetVals(ret, 0) {
-				if core.DependsOn(rv, isResultOf("(*syncer.RedisOutput).checkpoint", 0)) {
-					uses = true
+			var cp core.Site
+			for _, s := range pathSites(p) {
+				if isCp(s) {
+					cp = s
 				}
 			}
-			if !uses {
-				continue
+			if cp.Instr == nil {
+				return
+			}
+			cpi := extractOf(cp.Value(), 0)
+			if cpi == nil || pathNil(p, cpi) {
+				return // nothing stored: the initial start point
 			}
 			n++
-			r.Check(core.MustPass(f, ret, isStore), "RedisOutput.StartPoint/startDbId-unconditional", ret.Pos(),
-				"a start point taken from the checkpoint is returned on a path that did not store the checkpoint's database: a later restart re-selects a stale database")
-		}
-		if n == 0 {
+			stored := false
+			for _, in := range p.Instrs {
+				st, ok := in.(*ssa.Store)
+				if !ok {
+					continue
+				}
+				if fa, ok := st.Addr.(*ssa.FieldAddr); ok && core.FieldName(fa) == "startDbId" {
+					if e, isE := core.Unwrap(p.Resolve(st.Val)).(*ssa.Extract); isE && e.Tuple == cp.Value() && e.Index == 1 {
+						stored = true
+					}
+				}
+			}
+			if !stored {
+				bad, badPos = "a start point taken from the checkpoint is returned on a path that did not store the checkpoint's database: a later restart re-selects a stale database", ret.Pos()
+			}
+		})
+		if !okEnum {
+			r.Undecided("RedisOutput.StartPoint/startDbId-unconditional", f.Pos(), "too many paths")
+		} else if n == 0 {
 			r.Fail("RedisOutput.StartPoint/startDbId-unconditional", f.Pos(), "no return of a checkpoint-derived start point found")
+		} else {
+			r.Check(bad == "", "RedisOutput.StartPoint/startDbId-unconditional", badPos, "%s", bad)
 		}
 	}
 	// (c) the parser emits select(startDbId) before the decode loop
@@ -1134,16 +1158,52 @@ func ruleNewestCheckpoint(w *core.World, r *core.Report) {
 	for _, s := range core.SitesNamed(f, false, "pkg/redis/checkpoint.fetchCheckpoint") {
 		fetch = s
 	}
-	if fetch.Instr == nil || core.LoopHeadOf(fetch.Instr.Block()) == nil {
-		r.Undecided("GetCheckpoint/newest", f.Pos(), "the loop over the databases (calling fetchCheckpoint) was not found")
+	// the election: the loop in which the best record so far is overwritten by a whole-record copy of
+	// another one (`*best = *cand`), in GetCheckpoint or in a helper it hands the fetched records to
+	var replaceSt *ssa.Store
+	for _, g := range reachableFuncs(f) {
+		if g != f && !(core.Transparent != nil && core.Transparent(g)) {
+			continue
+		}
+		for _, in := range core.OwnInstrs(g) {
+			st, ok := in.(*ssa.Store)
+			if !ok {
+				continue
+			}
+			ld, ok := st.Val.(*ssa.UnOp)
+			if ok && ld.Op == token.MUL && strings.HasSuffix(core.TypeName(ld.Type()), "checkpoint.CheckpointInfo") && core.LoopHeadOf(st.Block()) != nil {
+				replaceSt = st
+			}
+		}
+	}
+	if fetch.Instr == nil || replaceSt == nil {
+		r.Undecided("GetCheckpoint/newest", f.Pos(), "the loop over the databases (calling fetchCheckpoint) or the election of the newest record was not found")
 		return
 	}
-	head := core.LoopHeadOf(fetch.Instr.Block())
+	head := core.LoopHeadOf(replaceSt.Block())
+	candPtr := core.Unwrap(replaceSt.Val.(*ssa.UnOp).X)
+	var curPath *core.Path
 	isCand := func(v ssa.Value) bool {
-		e, ok := core.Unwrap(v).(*ssa.Extract)
-		return ok && e.Index == 0 && e.Tuple == fetch.Value()
+		v = core.Unwrap(v)
+		if e, ok := v.(*ssa.Extract); ok && e.Index == 0 && e.Tuple == fetch.Value() {
+			return true
+		}
+		if v == candPtr {
+			return true
+		}
+		if curPath == nil {
+			return false
+		}
+		if v == core.Unwrap(curPath.Resolve(candPtr)) || curPath.Canon(v) == curPath.Canon(candPtr) {
+			return true
+		}
+		// two loads of the same location (the loop's element variable is read more than once)
+		lv, ok1 := v.(*ssa.UnOp)
+		lc, ok2 := candPtr.(*ssa.UnOp)
+		return ok1 && ok2 && lv.Op == token.MUL && lc.Op == token.MUL && core.CanonAddr(lv.X) == core.CanonAddr(lc.X)
 	}
 	classify := func(p *core.Path, v ssa.Value) string {
+		curPath = p
 		ld, ok := core.Unwrap(p.Resolve(v)).(*ssa.UnOp)
 		if !ok || ld.Op != token.MUL {
 			return ""
@@ -1963,19 +2023,66 @@ func ruleTxnDefault(w *core.World, r *core.Report) {
 				continue
 			}
 			n++
-			// the pointer stored: a fresh bool that holds the constant true
-			okVal := false
-			if cell, isA := core.Unwrap(st.Val).(*ssa.Alloc); isA {
-				sts := core.CellStores(cell)
-				okVal = len(sts) > 0
-				for _, cs := range sts {
-					if b, isB := core.ConstBool(cs.Val); !isB || !b {
-						okVal = false
-					}
+			// the pointer stored: a fresh bool that holds the constant true — directly, or through a
+			// "configured or default" helper that hands back the configured pointer when there is one
+			var okValue func(v ssa.Value, sub map[ssa.Value]ssa.Value, depth int) (ok, keeps bool)
+			okValue = func(v ssa.Value, sub map[ssa.Value]ssa.Value, depth int) (bool, bool) {
+				v = core.Unwrap(v)
+				if a, isSub := sub[v]; isSub {
+					v = core.Unwrap(a)
 				}
+				if fieldNameOfLoad(v) == "ReplayTransaction" {
+					return true, true // the operator's own value
+				}
+				if cell, isA := v.(*ssa.Alloc); isA {
+					sts := core.CellStores(cell)
+					if len(sts) == 0 {
+						return false, false
+					}
+					for _, cs := range sts {
+						x := core.Unwrap(cs.Val)
+						if a, isSub := sub[x]; isSub {
+							x = core.Unwrap(a)
+						}
+						if b, isB := core.ConstBool(x); !isB || !b {
+							return false, false
+						}
+					}
+					return true, false
+				}
+				if c, isC := v.(*ssa.Call); isC && depth < 3 {
+					h := c.Call.StaticCallee()
+					if h == nil || len(h.Blocks) == 0 || !core.Transparent(h) || len(c.Call.Args) != len(h.Params) {
+						return false, false
+					}
+					sub2 := map[ssa.Value]ssa.Value{}
+					for k, hp := range h.Params {
+						a := c.Call.Args[k]
+						if s2, isSub := sub[core.Unwrap(a)]; isSub {
+							a = s2
+						}
+						sub2[hp] = a
+					}
+					all, anyKeep, nret := true, false, 0
+					for _, in := range core.OwnInstrs(h) {
+						ret, isRet := in.(*ssa.Return)
+						if !isRet || len(ret.Results) != 1 {
+							continue
+						}
+						for _, rv := range core.RetVals(ret, 0) {
+							nret++
+							o, k := okValue(rv, sub2, depth+1)
+							all = all && o
+							anyKeep = anyKeep || k
+						}
+					}
+					return all && nret > 0, anyKeep
+				}
+				return false, false
 			}
+			okVal, keeps := okValue(st.Val, map[ssa.Value]ssa.Value{}, 0)
 			// only when the operator gave none
-			unset := false
+			unset := keeps
 			for _, fct := range core.FactsAt(st.Block()) {
 				if c, ok := core.FactCmp(fct); ok && c.Op == token.EQL && core.IsNilConst(c.Y) && fieldNameOfLoad(core.Unwrap(c.X)) == "ReplayTransaction" {
 					unset = true
